@@ -1,6 +1,7 @@
 (* Property C10 — path addressing is exact.  Only statements and [exact]; proofs live in Proofs/KeyPath*.v, Proofs/Hier*.v. *)
 From PG Require Import Common.Tactics Model.KeyPath Model.Hier
-  Proofs.KeyPathParse Proofs.KeyPathArith Proofs.KeyPathOrder.
+  Proofs.KeyPathParse Proofs.KeyPathArith Proofs.KeyPathOrder
+  Proofs.KeyPathSetBase Proofs.KeyPathSetIter Proofs.KeyPathSetThm.
 
 (* 1. A key path of admissible keys (integers; non-empty strings with balanced brackets) prints to a string
       that parses back to the same keys.  Any number of keys, any lengths. *)
@@ -54,3 +55,41 @@ Theorem C10_order_consistent : forall p a b x y,
   (forall i s, key_cmp (KInt i) (KStr s) = Lt).
 Proof. intros. repeat split. apply lt_prefix. apply lt_first_diff. Qed.
 Print Assumptions C10_order_consistent.
+
+(* 5. KeyPathSet (the trie, a dict of dicts exactly as in the code) refines a mathematical set of key lists.
+      twf = reachable shape (unique keys; '$' -> True; every branch non-empty); mem = denotation;
+      set_laws (Proofs/KeyPathSetThm.v) = add / remove / in / union / intersection / difference / rebase compute
+      the set operations, return the documented booleans, never raise, and keep the shape.
+      With the open '$' finding repaired (no_quirks) this holds for all paths. *)
+Theorem C10_set_ops : forall q t s p, no_quirks q -> twf q t -> twf q s -> set_laws q (fun _ => True) t s p.
+Proof. exact set_laws_no_quirks. Qed.
+Print Assumptions C10_set_ops.
+
+(*    As the code is (quirk flag on or off): the same for every path without a '$' key. *)
+Theorem C10_set_ops_partial : forall q t s p, twf q t -> twf q s -> cleanp q p -> set_laws q (cleanp q) t s p.
+Proof. exact set_laws_clean. Qed.
+Print Assumptions C10_set_ops_partial.
+
+Theorem C10_set_clean_iff : forall q k, clean q k <-> (q_dollar q = true -> k <> KStr [c_dollar]).
+Proof. exact clean_iff. Qed.
+Print Assumptions C10_set_clean_iff.
+
+(*    Iteration lists exactly the members, each once; bool() is non-emptiness. *)
+Theorem C10_set_iteration : forall q t, twf q t ->
+  NoDup (paths t) /\ (forall p, In p (paths t) <-> cleanp q p /\ mem q p t = true) /\ (is_nil t = false <-> exists p, cleanp q p /\ mem q p t = true).
+Proof. intros q t H. split; [eapply paths_nodup; eauto |]. split; [intros; apply paths_spec; assumption | apply bool_spec; assumption]. Qed.
+Print Assumptions C10_set_iteration.
+
+(*    Any sequence of API calls (the register machine of the correspondence) on marker-free paths, started from
+      empty sets, never raises and keeps every set in the reachable shape. *)
+Theorem C10_set_machine_safe : forall q os, Forall (sop_clean q) os ->
+  Forall (twf q) (fst (steps q [[]; []; []] os)) /\ ~ In OCrash (snd (steps q [[]; []; []] os)).
+Proof. intros q os H. apply steps_safe; [repeat constructor; apply twf_empty | assumption]. Qed.
+Print Assumptions C10_set_machine_safe.
+
+(*    The open finding, as a theorem about the model of the code as it is: adding the path ['$'] to the empty set
+      makes the root path a member and lists only the root path. *)
+Theorem C10_set_dollar_refuted :
+  exists t, add_go {| q_dollar := true |} false [KStr [c_dollar]] (TDict []) = Some (TDict t, true) /\ paths t = [[]] /\ contains_go {| q_dollar := true |} [] (TDict t) = Some true.
+Proof. exact dollar_witness. Qed.
+Print Assumptions C10_set_dollar_refuted.
